@@ -617,6 +617,74 @@ def random_tree(rng, runnable=True, max_depth=3, handler_names=False):
     return g.function()
 
 
+# ------------------------------------------------------------------------------------------------
+# nested comprehensions whose INNER iteration variable is also an ordinary variable read by the OUTER one
+# ------------------------------------------------------------------------------------------------
+COMP_KINDS = ['listcomp', 'setcomp', 'dictcomp', 'genexp']
+NESTED_ROLES = ['local', 'param', 'global', 'free']
+NESTED_SHAPES = ['elt-after', 'elt-before', 'cond-after', 'cond-before', 'iter-after', 'cond-then-elt',
+                 'iter-then-elt', 'tuple-target-elt-after']
+
+
+def _comp(kind, elt, tail):
+    if kind == 'listcomp':
+        return '[%s %s]' % (elt, tail)
+    if kind == 'setcomp':
+        return '{%s %s}' % (elt, tail)
+    if kind == 'dictcomp':
+        return '{%s: 0 %s}' % (elt, tail)
+    return 'list(%s %s)' % (elt, tail)
+
+
+def _nested_function(role, stmt):
+    if role == 'free':
+        body = ['x = tr()', 'def g0():', '    ' + stmt, '    return tr()', 'tr(g0())', 'return tr()']
+        head = 'def f(c):'
+    else:
+        body = (['x = tr()'] if role == 'local' else []) + [stmt, 'return tr()']
+        head = 'def f(x):' if role == 'param' else 'def f(c):'
+    return '\n'.join([head] + _ind(body)) + '\n'
+
+
+def nested_comp_space():
+    """(descriptor, source): the contested name `x` is the iteration variable of an inner comprehension and is read
+    by the enclosing comprehension — in its element, a condition or a later iterable, before or after the inner one
+    textually — `x` being a local, a parameter, a global or a free variable of the function.  2 and 3 levels, the
+    four kinds of comprehension mixed."""
+    out = []
+    for role in NESTED_ROLES:
+        for ko in COMP_KINDS:
+            for ki in COMP_KINDS:
+                inner = _comp(ki, 'x', 'for x in t')
+                inner2 = _comp(ki, 'x', 'for (x, w) in t')
+                shapes = {
+                    'elt-after': _comp(ko, '(%s, x)' % inner, 'for t in y'),
+                    'elt-before': _comp(ko, '(x, %s)' % inner, 'for t in y'),
+                    'cond-after': _comp(ko, 't', 'for t in y if tr(%s) if x' % inner),
+                    'cond-before': _comp(ko, 't', 'for t in y if x if tr(%s)' % inner),
+                    'iter-after': _comp(ko, 't', 'for t in y for u in tr(%s) for v in x' % inner),
+                    'cond-then-elt': _comp(ko, 'x', 'for t in y if tr(%s)' % inner),
+                    'iter-then-elt': _comp(ko, 'x', 'for t in y for u in tr(%s)' % inner),
+                    'tuple-target-elt-after': _comp(ko, '(%s, x)' % inner2, 'for t in y'),
+                }
+                for sh in NESTED_SHAPES:
+                    out.append(([role, ko, ki, sh], _nested_function(role, 'tr(%s)' % shapes[sh])))
+        # three levels
+        for i, ko in enumerate(COMP_KINDS):
+            for j, km in enumerate(COMP_KINDS):
+                ki = COMP_KINDS[(i + 2 * j + 1) % 4]
+                inner = _comp(ki, 'x', 'for x in u')
+                mid_a = _comp(km, '(%s, u)' % inner, 'for u in t')
+                mid_b = _comp(km, '(%s, x)' % inner, 'for u in t')
+                out.append(([role, ko, km, ki, 'three:outer-elt-after'],
+                            _nested_function(role, 'tr(%s)' % _comp(ko, '(%s, x)' % mid_a, 'for t in y'))))
+                out.append(([role, ko, km, ki, 'three:middle-elt-after'],
+                            _nested_function(role, 'tr(%s)' % _comp(ko, mid_b, 'for t in y'))))
+                out.append(([role, ko, km, ki, 'three:outer-cond-after'],
+                            _nested_function(role, 'tr(%s)' % _comp(ko, 't', 'for t in y if tr(%s) if x' % mid_a))))
+    return out
+
+
 # hand-written seeds: shapes worth keeping in every run (also in corpus/)
 SEEDS = [
     'def f(a, *b, c=1, **d):\n    global G\n    import os.path as op, sys\n    def g():\n        nonlocal a\n        a = 1\n        return b, zz\n    class K:\n        y = a\n        def m(self): return c\n    lam = lambda q: q + a + w\n    [t for t in b if t]\n    with a as (u, v): pass\n    del d\n    G = 2\n    return lam\n',
